@@ -610,7 +610,13 @@ def timed_scenarios(tier, rng):
         # asyncio: the decorator's wait_for of a task expires while the task is parked in `async with self.channel_lock`
         {"waiter": True, "async_waiter": True, "tname": "AsyncSimTransport", "hung": ["gp", "wait"], "queued": [["si"]], "a_timeout": 6.0, "a_delay": 2.0},
     ]
+    # Settings.NO_TERMINATE_ON_TIMEOUT on + a device that answers LATER than timeout_ops: nothing wakes the worker, its read
+    # returns by itself; when the caller has its ScrapliTimeout the operation must be over (lock free, no worker, no further calls)
+    base.append({"late": True, "no_terminate": True, "tname": "SimTransport", "hung": ["si", "late"], "queued": [], "a_delay": 1.5})
+    base.append({"late": True, "no_terminate": True, "tname": "SystemTransport", "hung": ["int", "late"], "queued": [], "a_delay": 1.5})
     if tier == "thorough":
+        base.append({"late": True, "no_terminate": True, "tname": "TelnetTransport", "hung": ["sir", "late"], "queued": [], "a_delay": 1.5})
+        base.append({"late": True, "no_terminate": False, "tname": "SimTransport", "hung": ["si", "late"], "queued": [], "a_delay": 1.5})
         base.append({"waiter": True, "async_waiter": True, "tname": "AsyncSimTransport", "hung": ["si", "wait"], "queued": [["gp"], ["sir"]],
                      "a_timeout": 6.0, "a_delay": 2.0})
     if tier == "thorough":
@@ -645,6 +651,8 @@ def run_timed(scenarios):
             r = json.loads(so.strip().splitlines()[-1])
         except Exception:
             r = {"rig_error": f"process gave no result (rc={p.returncode}): {se[-1500:]}"}
+        if "rig_error" not in r and sc.get("late") and (not r.get("late_answer_armed") or (r["hung"]["outcome"] or [""])[0] == "ok"):
+            r = {"rig_error": f"late-answer scenario: the answer was not armed / came before the caller looked at its timer: {json.dumps(r)[:400]}"}
         if "rig_error" not in r and not r.get("lock_held_while_hung"):
             r = {"rig_error": f"the scenario did not get its first operation blocked inside the lock context: {json.dumps(r)[:600]}"}
         out.append(r)
@@ -671,10 +679,38 @@ def timed_expected(spec):
     return e if isinstance(e, str) else [x.decode("latin1") for x in e]
 
 
+def late_oracle(sc, r):
+    """NO_TERMINATE_ON_TIMEOUT + late answer: an operation that has ended for its caller must really be over.  All clauses are
+    about recorded state / event order at the moment the caller got its exception, none about durations."""
+    bad = []
+    h, ax = r["hung"], r.get("at_exception") or {}
+    if h["alive"]:
+        bad.append("the operation whose device answered late never ended for its caller")
+        return bad
+    if h["outcome"][:2] != ["exc", "ScrapliTimeout"]:
+        bad.append(f"the operation whose device answered after timeout_ops ended with {h['outcome']} instead of ScrapliTimeout")
+    if ax.get("lock_locked"):
+        bad.append("the caller has its ScrapliTimeout while the channel lock is still held by the operation that just ended for it")
+    if ax.get("pool_threads_alive"):
+        bad.append(f"the caller has its ScrapliTimeout while worker thread(s) of that call are still alive: {ax['pool_threads_alive']}")
+    if r.get("ended_op_calls_after_exception"):
+        bad.append(f"after its caller got ScrapliTimeout the ended operation's worker {r['ended_op_worker']} made {r['ended_op_calls_after_exception']} more transport call(s) (it consumed the late answer)")
+    for q in r["queued"]:
+        if q["alive"]:
+            bad.append(f"the next operation {q['spec']} is still blocked")
+        elif q["outcome"][0] != "ok" or q["outcome"][1] != timed_expected(q["spec"]):
+            bad.append(f"the next operation {q['spec']} got {q['outcome']!r}, not the output of its own command")
+    if r["lock_locked_after"]:
+        bad.append("the channel lock is still held at the end")
+    return bad
+
+
 def timed_oracle(sc, r):
     """violated clauses of C19 for one timed scenario (real threads, real lock, real timeout decorator).  Which caller's timer
     fired first is taken from the RECORDED order of transport.close() calls (`closers`, the thread that ran `_handle_timeout`),
     not from wall-clock: that caller must get ScrapliTimeout; everybody else must end, with a scrapli error or its own result."""
+    if sc.get("late"):
+        return late_oracle(sc, r)
     bad = []
     lim = sc["timeout_ops"] + sc["slack"]
     h = r["hung"]
@@ -761,7 +797,7 @@ def waiter_compare(sc, r, mline):
     return ""
 
 
-def timed_family(ck, tier, closes_before_join):
+def timed_family(ck, tier, closes_before_join, pool_joins=True):
     """runs the scenarios, oracle + comparison with the Lean protocol model (PoolTimeout); returns nothing"""
     scs = [c["timed"] for c in json.load(open(VERIF / "corpus" / "C19" / "corpus.json")) if "timed" in c]
     scs += [sc for sc in timed_scenarios(tier, ck.rng) if sc not in scs]
@@ -771,14 +807,32 @@ def timed_family(ck, tier, closes_before_join):
     if closes_before_join is not None:
         try:
             # the sim transport's close() wakes a blocked read: closeWakes = 1; fair schedule: timeout, then (caller, worker) x 3
-            mout = run_model("C19", [waiter_model_line(sc) if sc.get("waiter") else f"T {1 if closes_before_join else 0} 1 ccwcwcw" for sc in scs])
+            def mline(sc):
+                if sc.get("waiter"):
+                    return waiter_model_line(sc)
+                if sc.get("late"):
+                    # caller thread alone, four steps: can ScrapliTimeout reach it while the worker still holds the lock?
+                    return f"T2 {1 if closes_before_join else 0} {0 if sc.get('no_terminate') else 1} {1 if pool_joins else 0} 1 cccc"
+                return f"T {1 if closes_before_join else 0} 1 ccwcwcw"
+            mout = run_model("C19", [mline(sc) for sc in scs])
         except Exception as e:  # noqa: BLE001
             ck.proof_broken("model driver Drv/C19.lean (T)", repr(e))
     for i, (sc, r) in enumerate(zip(scs, results)):
         ck.case(("timed", json.dumps(sc, sort_keys=True)), nontrivial=True, sample={"timed": sc, "hung": r["hung"]},
-                tags=("timed", "asyncio" if sc.get("async_waiter") else "threads", "waiter-times-out" if sc.get("waiter") else "holder-times-out", f"transport={sc['tname']}", f"hung={sc['hung'][0]}/{sc['hung'][1]}", f"queued={len(sc['queued'])}"))
+                tags=("timed", "asyncio" if sc.get("async_waiter") else "threads", "waiter-times-out" if sc.get("waiter") else "late-answer-no-terminate" if sc.get("late") else "holder-times-out", f"transport={sc['tname']}", f"hung={sc['hung'][0]}/{sc['hung'][1]}", f"queued={len(sc['queued'])}"))
         for what in timed_oracle(sc, r)[:1]:
             ck.violation({"timed": sc, "observed": r}, what, matcher)
+        if sc.get("late"):
+            if mout is not None and not r["hung"]["alive"]:
+                pc, lk, _cl = mout[i].split(" ")
+                real = bool((r.get("at_exception") or {}).get("lock_locked"))
+                model = pc == "raised" and lk == "1"
+                if real != model:
+                    ck.disagree("PoolTimeout model (join / late answer) vs thread-pool timeout", {"timed": sc},
+                                f"ScrapliTimeout delivered while the lock is held: impl={real} model={model} (poolJoinsWorker={pool_joins})")
+                else:
+                    ck.traces_validated += 1
+            continue
         modelled = (r.get("closers") or [None])[0] == ("waiter" if sc.get("waiter") else "hung") or r["hung"]["alive"]
         if not modelled:
             flipped += 1      # another caller's timer fired first (recorded): the models describe the other order; the oracle above still applies
@@ -817,7 +871,9 @@ def run(tier, seed):
                "send_input, send_input_and_read, interact) while 1-3 callers are queued on the lock; oracle: it ends by ScrapliTimeout, nobody is "
                "still blocked timeout_ops+8s later, lock free, queued callers end with their own result or a scrapli error, the re-opened "
                "connection serves two fresh callers; compared with the Lean PoolTimeout protocol model fed with the generated close/join order; "
-               "also: a caller whose timeout expires while it WAITS for the lock behind a slow holder. asyncio schedules additionally contain "
+               "also: a caller whose timeout expires while it WAITS for the lock behind a slow holder; and Settings.NO_TERMINATE_ON_TIMEOUT on with a "
+               "device that answers 1.5 s after the return (timeout_ops 0.5): at the moment the caller gets ScrapliTimeout the lock must be free, no "
+               "worker of that call alive, no later transport call by it, and the next operation gets its own output. asyncio schedules additionally contain "
                "CANCEL events (task.cancel() ONLY while the task is parked at the lock; a real timeout there additionally closes the shared transport: timed scenario async_waiter): every list over "
                "{run 0,1,2, cancel 1} of 5 (7) entries for 3 tasks, over {run 0,1, cancel 0,1} of 5 (7) for 2 tasks, PRNG for 2-4 tasks; "
                "a cancelled operation must make no transport call and leave the lock alone.")
@@ -835,9 +891,9 @@ def run(tier, seed):
         ck.proof_broken("translator gen/c19.py", repr(e))
     try:
         from gen import c19 as gen_c19
-        closes_before_join = gen_c19.pool_timeout_order()[0]
+        closes_before_join, _closes, pool_joins = gen_c19.pool_timeout_order()
     except Exception:  # noqa: BLE001 — already reported by the translator step
-        closes_before_join = None
+        closes_before_join, pool_joins = None, True
     ck.prove("ScrapliProps.C19", lemma_files=["ScrapliProps/C19Lemmas.lean", "ScrapliModel/Lock.lean"])
     if tier == "thorough":
         ck.leanchecker("ScrapliProps.C19")
@@ -890,7 +946,7 @@ def run(tier, seed):
                 ck.disagree(f"Lock model vs {case['stack']} channel", rec, d)
             else:
                 ck.traces_validated += 1
-    timed_family(ck, tier, closes_before_join)
+    timed_family(ck, tier, closes_before_join, pool_joins)
     if unlocked_total and not unlocked_interleaved:
         raise HarnessError("with channel_lock off no schedule produced an interleaving: the rig cannot see what it is meant to exclude")
     ck.extra["unlocked_runs"] = unlocked_total
